@@ -337,6 +337,8 @@ class SimScheduler:
         flat_out = set(flatten_keys(keys))
         n_total = len(dsk)
         self._legacy_victims = set()
+        self._legacy_victim_ids = set()
+        self._finished_ref = finished
         for k in dsk:
             if self._deep_stem(k).startswith(self.LEGACY_MUTATORS):
                 self._legacy_victims.update(deps[k])
@@ -432,7 +434,8 @@ class SimScheduler:
         return k if isinstance(k, str) else ""
 
     def _mutation(self, key, dep, when):
-        if self._deep_stem(key).startswith(self.LEGACY_MUTATORS) or dep in getattr(self, "_legacy_victims", ()):
+        if self._deep_stem(key).startswith(self.LEGACY_MUTATORS) or dep in getattr(self, "_legacy_victims", ()) \
+                or id(getattr(self, "_finished_ref", {}).get(dep, object())) in getattr(self, "_legacy_victim_ids", ()):
             self.legacy_mutations = getattr(self, "legacy_mutations", 0) + 1
             return
         if self.monitor == "record":
@@ -471,6 +474,9 @@ class SimScheduler:
         if w.transfer == "copy" and w.workers > 1:
             # a remote scheduler ships the task itself as bytes
             task = self._ship(task)
+        if self._deep_stem(k).startswith(self.LEGACY_MUTATORS):
+            # the same object may be published under several keys (aliases, pass-through tasks)
+            self._legacy_victim_ids.update(id(v_) for v_ in data.values())
         value = _execute_task(task, data)
         self.tasks_run += 1
         if self.monitor:
